@@ -120,11 +120,11 @@ theorem closeChan_ok (c : Chan) (h : ChanOk c) : ChanOk (closeChan c) ∧ (close
   unfold closeChan
   rcases h with ⟨h1, h2, h3⟩ | ⟨h1, h2, h3⟩ <;> simp [h1, h2, h3, ChanOk]
 
-/-- **channel_close_exactly_once** (safety half, with the `recv()` clause): along every schedule that does
-not use the raw `SctpTransport::close_data_channel` (not reachable through `PeerConnection`; it still leaves
-the event sender alive — witness below; the at-most-once clause alone needs no such hypothesis:
-`channel_close_at_most_once`), every channel has seen `Close` at most once, exactly once iff it is closed —
-and then a pending `recv()` returns —, a closed channel is never reopened, the number of channels never changes. -/
+/-- **channel_close_exactly_once** (safety half; the hypothesis is only used for the *monotonicity* and
+*length* clauses through `ChansStep` — the per-channel invariant itself holds on every schedule:
+`channel_close_exactly_once_all_schedules`): every channel has seen `Close` at most once, exactly once iff it
+is closed — and then a pending `recv()` returns —, a closed channel is never reopened, the number of channels
+never changes. -/
 theorem channel_close_exactly_once (s : St) (as : List Act) (h : ∀ c ∈ s.chans, ChanOk c)
     (hne : ∀ a ∈ as, ∀ i, a ≠ .closeChannel i) :
     (run s as).chans.length = s.chans.length ∧
@@ -182,20 +182,7 @@ theorem channel_close_on_close (s : St) (as : List Act) (h : ∀ c ∈ s.chans, 
   · simp [h1] at this
   · exact ⟨h1, h2, h3⟩
 
-/-- weaker invariant that also survives the raw `close_data_channel`: open with no Close delivered, or
-closed with exactly one (the sender may still be alive) -/
-def ChanOnce (c : Chan) : Prop :=
-  (c.closed = false ∧ c.events = 0 ∧ c.senderDropped = false) ∨ (c.closed = true ∧ c.events = 1)
-
-theorem closeChan_once (c : Chan) (h : ChanOnce c) : ChanOnce (closeChan c) := by
-  unfold closeChan
-  rcases h with ⟨h1, h2, h3⟩ | ⟨h1, h2⟩ <;> simp [h1, h2, ChanOnce]
-
-theorem rawCloseChan_once (c : Chan) (h : ChanOnce c) : ChanOnce (rawCloseChan c) := by
-  unfold rawCloseChan
-  rcases h with ⟨h1, h2, h3⟩ | ⟨h1, h2⟩ <;> simp [h1, h2, ChanOnce]
-
-theorem rawCloseAt_once (l : List Chan) (i : Nat) (h : ∀ c ∈ l, ChanOnce c) : ∀ c ∈ rawCloseAt l i, ChanOnce c := by
+theorem rawCloseAt_ok (l : List Chan) (i : Nat) (h : ∀ c ∈ l, ChanOk c) : ∀ c ∈ rawCloseAt l i, ChanOk c := by
   induction l generalizing i with
   | nil => simp [rawCloseAt]
   | cons x xs ih =>
@@ -204,7 +191,7 @@ theorem rawCloseAt_once (l : List Chan) (i : Nat) (h : ∀ c ∈ l, ChanOnce c) 
       intro c hc
       simp only [rawCloseAt, List.mem_cons] at hc
       rcases hc with rfl | hc
-      · exact rawCloseChan_once x (h x (by simp))
+      · exact (closeChan_ok x (h x (by simp))).1
       · exact h c (by simp [hc])
     | succ n =>
       intro c hc
@@ -213,11 +200,12 @@ theorem rawCloseAt_once (l : List Chan) (i : Nat) (h : ∀ c ∈ l, ChanOnce c) 
       · exact h _ (by simp)
       · exact ih n (fun d hd => h d (by simp [hd])) c hc
 
-/-- **channel_close_at_most_once** — no hypothesis on the schedule any more (the raw
-`SctpTransport::close_data_channel` included, since the SCTP fix made it announce Close at most once): along
-**every** schedule of all actors every channel has seen `Close` at most once, exactly once iff it is closed. -/
-theorem channel_close_at_most_once (s : St) (as : List Act) (h : ∀ c ∈ s.chans, ChanOnce c) :
-    ∀ c ∈ (run s as).chans, ChanOnce c := by
+/-- **channel_close_exactly_once_all_schedules** — no hypothesis on the schedule (the raw
+`SctpTransport::close_data_channel` included, since the SCTP fix "announces Close at most once" and fix
+2390d12): along **every** schedule of all actors every channel is either open with no `Close` delivered, or
+closed with exactly one `Close` and its event sender dropped (a pending `recv()` returns). -/
+theorem channel_close_exactly_once_all_schedules (s : St) (as : List Act) (h : ∀ c ∈ s.chans, ChanOk c) :
+    ∀ c ∈ (run s as).chans, ChanOk c := by
   induction as generalizing s with
   | nil => exact h
   | cons a rest ih =>
@@ -227,7 +215,7 @@ theorem channel_close_at_most_once (s : St) (as : List Act) (h : ∀ c ∈ s.cha
     · obtain ⟨i, rfl⟩ := hraw
       unfold step
       split
-      · exact rawCloseAt_once s.chans i h
+      · exact rawCloseAt_ok s.chans i h
       · exact h
     · have hs := chans_step s a (fun i hi => hraw ⟨i, hi⟩)
       rcases hs with e | e
@@ -235,20 +223,19 @@ theorem channel_close_at_most_once (s : St) (as : List Act) (h : ∀ c ∈ s.cha
       · rw [e]; intro c hc
         simp only [List.mem_map] at hc
         obtain ⟨c0, hc0, rfl⟩ := hc
-        exact closeChan_once c0 (h c0 hc0)
+        exact (closeChan_ok c0 (h c0 hc0)).1
 
 /-- was the known finding `chan:…closeChannelTwice:close-delivered-2-times` (the third Close emitter was
 unguarded); fixed in the SCTP layer: the second call is a no-op -/
 theorem close_data_channel_twice_now_once :
-    (run (connectedSt .webrtc true 1) [.closeChannel 0, .closeChannel 0]).chans = [⟨true, 1, false⟩] := by decide
+    (run (connectedSt .webrtc true 1) [.closeChannel 0, .closeChannel 0]).chans = [⟨true, 1, true⟩] := by decide
 
-/-- **Witness (known finding `hang:…closeChannel+close…`)**: after `close_data_channel` the channel is
-`Closed` with its sender still alive, so the teardown paths skip it: even after a complete `close()` a
-pending `DataChannel::recv()` never returns. -/
-theorem close_data_channel_then_close_recv_hangs_witness :
+/-- was the known finding `hang:…closeChannelThenClose:pending-dc-recv-never-returns` (the channel was left
+`Closed` with its sender alive, so every teardown path skipped it); since fix 2390d12 the reader returns -/
+theorem close_data_channel_then_close_recv_now_returns :
     let t := run (connectedSt .webrtc true 1)
       [.closeChannel 0, .callClose .localClose, .closeStep, .closeStep, .sctpClose, .dtlsExit, .drvIce]
-    quiescent t = true ∧ t.peer = .closed ∧ call t (.dcRecv 0) = .pending := by decide
+    quiescent t = true ∧ t.peer = .closed ∧ call t (.dcRecv 0) = .okNow := by decide
 
 /-! ### close is idempotent -/
 
@@ -292,11 +279,13 @@ theorem closeSeq_result (s : St) (arg : Reason) (hp : s.peer ≠ .closed) (hc : 
       unfold closeChan; split <;> simp_all
     exact (closeC_chans_step _).all_closed hBc
 
-/-- **close_concurrent**: a second `close()` issued while the first is still between its blocks — the
-case a sequential model cannot express — is the `Closed` early return: model it as block A run on the
-in-flight state. It changes no observable field (only the bookkeeping of which call finishes), so two
-concurrent closes equal one. -/
-theorem close_concurrent (s : St) (a1 a2 : Reason) (hp : s.peer ≠ .closed) :
+/-- *Lemma (definitional; not a property theorem)*: a second `close()` that arrives after block A of the
+first has published `Closed` takes the early return and changes no observable field. **Not covered**: two
+first closes that both pass the `Closed` check before either writes it (the code's check, PC `close_with_reason`
+top, and its write are ~60 lines apart and not one atomic step; the model's `closeA` is): both then run the
+whole body. Every block is idempotent (`take()`, `swap`, `send_if_modified`), which is why the harness'
+barrier-started `closeTwice` observes nothing, but that interleaving is neither modelled nor proved. -/
+theorem lemma_second_close_is_early_return (s : St) (a1 a2 : Reason) (hp : s.peer ≠ .closed) :
     let t := closeA s a1
     (closeA t a2).peer = t.peer ∧ (closeA t a2).sig = t.sig ∧ (closeA t a2).reason = t.reason ∧
     (closeA t a2).chans = t.chans ∧ (closeA t a2).held = t.held ∧ (closeA t a2).ice = t.ice ∧
@@ -345,12 +334,31 @@ theorem calls_fail_fast_after_close (s : St) (arg : Reason) (hp : s.peer ≠ .cl
     have := this c (List.mem_of_getElem? hi)
     simp [this.2.2]
 
-/-- after a lower-layer end (no `close()`): `wait_for_connected` no longer hangs in
-`Disconnected` + reason (fix 3448715) — in every terminal state it answers at once -/
-theorem wait_for_connected_answers_when_terminal (s : St) (h : terminal s = true) :
+/-- after a lower-layer end (no `close()`): `wait_for_connected` answers at once in every terminal state
+**except** `Disconnected` + `IceDisconnected` — the "cycling transport" state after the ICE disconnect grace,
+from which an ICE recovery returns to `Connected` (`terminal_not_final_while_driver_alive_witness`); there it
+keeps waiting until `Connected`, or `Failed` when ICE gives up (round-3 refinement of fix 3448715) -/
+theorem wait_for_connected_answers_when_terminal (s : St) (h : terminal s = true)
+    (hne : ¬ (s.peer = .disconnected ∧ s.reason = some .iceDisconnected)) :
     call s .waitForConnected = .errNow := by
   obtain ⟨hp, r, hr⟩ := (terminal_iff s).mp h
-  rcases hp with h | h | h <;> simp [call, h, hr]
+  rcases hp with h | h | h
+  · have : r ≠ .iceDisconnected := fun e => hne ⟨h, by rw [hr, e]⟩
+    simp [call, h, hr, this]
+  · simp [call, h]
+  · simp [call, h]
+
+/-- … and in that state it is pending, by design -/
+theorem wait_for_connected_waits_across_ice_disconnect :
+    let t := run (connectedSt .webrtc true 1) [.iceDisconnect, .drvIce, .drvGrace, .sctpClose]
+    quiescent t = true ∧ terminal t = true ∧ t.reason = some .iceDisconnected ∧
+    call t .waitForConnected = .pending ∧ call t (.dcRecv 0) = .okNow := by decide
+
+/-- `PeerConnection::recv()` (event queue drained) ends exactly when the connection is `Closed`; in the
+other terminal states it keeps waiting for events (the application learns about `Failed` / `Disconnected`
+through the state watches) -/
+theorem pc_recv_ends_iff_closed (s : St) : call s .pcRecv = .okNow ↔ s.peer = .closed := by
+  simp [call]
 
 /-! ### terminal state: all schedules -/
 
@@ -370,10 +378,10 @@ theorem terminal_stable_after_driver_exit (s : St) (as : List Act) (ht : termina
 def chansDone (s : St) : Bool := s.chans.all (fun c => c.closed && c.events == 1 && c.senderDropped) && s.blocked == 0
 
 /-- what a settled state must look like: quiescent states (no action of the implementation's own tasks
-enabled) are terminal — unless a DTLS handshake is still waiting for the network (its 30 s timer is
-environment) — and, when asked, every channel has seen exactly one Close -/
+enabled — the DTLS handshake deadline `dtlsTimeout` is one of them, so a handshake in flight is never
+quiescent) are terminal and, when asked, every channel has seen exactly one Close -/
 def okState (needChans : Bool) (s : St) : Bool :=
-  !quiescent s || s.dtls == .handshaking || (terminal s && (!needChans || chansDone s))
+  !quiescent s || (terminal s && (!needChans || chansDone s))
 
 /-- certificate check: the closure of `{s1}` under `acts` is closed and all its members satisfy `ok` -/
 def certified (ok : St → Bool) (acts : List Act) (n : Nat) (s1 : St) : Bool :=
@@ -390,8 +398,110 @@ theorem certified_sound (ok : St → Bool) (acts : List Act) (n : Nat) (s1 : St)
   rw [List.all_eq_true] at hall
   exact hall _ hm
 
+/-! #### termination of the implementation's own tasks ("reaches" is not only safety)
+
+`Settles s`: every run of internal actions from `s` is finite (accessibility). The certificate adds the
+members of the closure one by one to a list `Q`, a state only when each of its enabled internal successors
+is already in `Q`; if all of `V` ends up in `Q`, every reachable state settles. -/
+
+inductive Settles : St → Prop
+  | intro (s : St) (h : ∀ a ∈ internalActs, enabled s a = true → Settles (apply s a)) : Settles s
+
+def settleStep (Q : List St) (s : St) : List St :=
+  if Q.contains s then Q
+  else if internalActs.all (fun a => !enabled s a || Q.contains (apply s a)) then s :: Q else Q
+
+theorem settleStep_sound (Q : List St) (s : St) (hQ : ∀ t ∈ Q, Settles t) : ∀ t ∈ settleStep Q s, Settles t := by
+  unfold settleStep
+  split
+  · exact hQ
+  · split
+    · rename_i _ hall
+      intro t ht
+      rcases List.mem_cons.mp ht with rfl | ht
+      · refine .intro _ (fun a ha hen => ?_)
+        rw [List.all_eq_true] at hall
+        have := hall a ha
+        simp only [hen, Bool.not_true, Bool.false_or] at this
+        exact hQ _ (by simpa using this)
+      · exact hQ t ht
+    · exact hQ
+
+theorem settleFold_sound (V Q : List St) (hQ : ∀ t ∈ Q, Settles t) : ∀ t ∈ V.foldl settleStep Q, Settles t := by
+  induction V generalizing Q with
+  | nil => exact hQ
+  | cons v vs ih => exact ih _ (settleStep_sound Q v hQ)
+
+/-- `n` passes over the closure, newest states first (successors are mostly discovered after their
+predecessors, so the reverse order is nearly topological; too few passes make the check fail, never unsound) -/
+def settlePasses (W : List St) : Nat → List St → List St
+  | 0, Q => Q
+  | n + 1, Q => settlePasses W n (W.foldl settleStep Q)
+
+theorem settlePasses_sound (W : List St) (n : Nat) (Q : List St) (hQ : ∀ t ∈ Q, Settles t) :
+    ∀ t ∈ settlePasses W n Q, Settles t := by
+  induction n generalizing Q with
+  | zero => exact hQ
+  | succ n ih => exact ih _ (settleFold_sound W Q hQ)
+
+def settlesAll (V : List St) : Bool :=
+  let Q := settlePasses V 3 []   -- `closure` lists the newest states first
+  V.all Q.contains
+
+theorem settlesAll_sound (V : List St) (h : settlesAll V = true) : ∀ s ∈ V, Settles s := by
+  intro s hs
+  simp only [settlesAll, List.all_eq_true] at h
+  have hm := h s hs
+  exact settlePasses_sound _ 3 [] (by simp) s (by simpa using hm)
+
+/-- a quiescent state: nothing left to settle; an enabled internal action always exists otherwise -/
+theorem Settles.not_stuck {s : St} (_ : Settles s) : quiescent s = true ∨ ∃ a ∈ internalActs, enabled s a = true := by
+  by_cases hq : quiescent s = true
+  · exact Or.inl hq
+  · right
+    simp only [quiescent, List.all_eq_true, Bool.not_eq_true'] at hq
+    obtain ⟨a, ha⟩ := Classical.not_forall.mp hq
+    obtain ⟨ha, hen⟩ := Classical.not_imp.mp ha
+    exact ⟨a, ha, by simpa using hen⟩
+
+/-- from a settling state some finite run of the implementation's own tasks reaches a quiescent state -/
+theorem Settles.reaches_quiescent {s : St} (h : Settles s) :
+    ∃ as : List Act, (∀ a ∈ as, a ∈ internalActs) ∧ quiescent (run s as) = true := by
+  induction h with
+  | intro s _ ih =>
+    by_cases hq : quiescent s = true
+    · exact ⟨[], by simp, hq⟩
+    · simp only [quiescent, List.all_eq_true, Bool.not_eq_true'] at hq
+      obtain ⟨a, ha⟩ := Classical.not_forall.mp hq
+      obtain ⟨ha, hen⟩ := Classical.not_imp.mp ha
+      have hen' : enabled s a = true := by simpa using hen
+      obtain ⟨as, has, hqq⟩ := ih a ha hen'
+      refine ⟨a :: as, ?_, ?_⟩
+      · intro b hb
+        rcases List.mem_cons.mp hb with rfl | hb
+        · exact ha
+        · exact has b hb
+      · simpa [run, step, hen'] using hqq
+
+/-- certificate with termination: closed set, all members OK, all members settle -/
+def certifiedLive (ok : St → Bool) (acts : List Act) (n : Nat) (s1 : St) : Bool :=
+  let V := closure acts n [s1]
+  V.contains s1 && closedUnder acts V && V.all ok && settlesAll V
+
+theorem certifiedLive_sound (ok : St → Bool) (acts : List Act) (n : Nat) (s1 : St)
+    (h : certifiedLive ok acts n s1 = true) (as : List Act) (has : ∀ a ∈ as, a ∈ acts) :
+    ok (run s1 as) = true ∧ Settles (run s1 as) := by
+  simp only [certifiedLive, Bool.and_eq_true] at h
+  obtain ⟨⟨⟨h0, hcl⟩, hall⟩, hset⟩ := h
+  have hm := closedUnder_sound acts _ hcl s1 (by simpa using h0) as has
+  rw [List.all_eq_true] at hall
+  exact ⟨hall _ hm, settlesAll_sound _ hset _ hm⟩
+
 def settledOK (acts : List Act) (needChans : Bool) (n : Nat) (s1 : St) : Bool :=
   certified (okState needChans) acts n s1
+
+def settledLive (acts : List Act) (needChans : Bool) (n : Nat) (s1 : St) : Bool :=
+  certifiedLive (okState needChans) acts n s1
 
 theorem settledOK_sound (acts : List Act) (needChans : Bool) (n : Nat) (s1 : St)
     (h : settledOK acts needChans n s1 = true) (as : List Act) (has : ∀ a ∈ as, a ∈ acts) :
@@ -422,42 +532,70 @@ ICE loss handled by the ICE layer's own failure timeout, i.e. by `iceFail`). -/
 def eventApplies (s0 : St) (e : Act) : Bool :=
   enabled s0 e && (e != .iceDisconnect || s0.drv == .running)
 
-/-- the mode × phase × event table of certificates -/
-def phaseEventTable : List (Mode × Bool × Phase × Act) :=
-  [Mode.webrtc, Mode.direct].flatMap fun m => [true, false].flatMap fun app =>
-    (allPhases.filter (phaseExists m app)).flatMap fun ph =>
-      (terminatingEvents.filter (eventApplies (phaseState m app 1 ph))).map fun e => (m, app, ph, e)
+/-- the three kinds of connection of the table: WebRTC, direct RTP, and direct SDES-SRTP (`needDescs`: the
+driving loop first waits for both descriptions — `waitDescs` / `drvDescs`; before the connection is up the
+descriptions are not both set yet, `descsSet` is one of the racing progress actions) -/
+inductive Kind | webrtc | rtp | sdes
+deriving DecidableEq, Repr
+
+def Kind.mode : Kind → Mode
+  | .webrtc => .webrtc | .rtp => .direct | .sdes => .direct
+
+def earlyPhase (ph : Phase) : Bool :=
+  ph == .created || ph == .offerMade || ph == .remoteOfferSet || ph == .checking || ph == .iceConnected
+
+/-- start state of a table row; one registered data channel everywhere (also on connections that will
+never have an SCTP association: audit r2-A4) -/
+def startState (k : Kind) (app : Bool) (ph : Phase) : St :=
+  let s := phaseState k.mode app 1 ph
+  match k with
+  | .sdes =>
+    -- SDES at `iceConnected`: the driving loop is parked in its description poll
+    if earlyPhase ph then { s with needDescs := true, descs := false } else { s with needDescs := true }
+  | _ => s
+
+/-- the kind × phase × event table of certificates -/
+def phaseEventTable : List (Kind × Bool × Phase × Act) :=
+  [Kind.webrtc, Kind.rtp, Kind.sdes].flatMap fun k => [true, false].flatMap fun app =>
+    (allPhases.filter (phaseExists k.mode app)).flatMap fun ph =>
+      (terminatingEvents.filter (eventApplies (startState k app ph))).map fun e => (k, app, ph, e)
 
 set_option maxRecDepth 1000000 in
-/-- **reaches_terminal_with_reason** — full statement, all schedules: for every transport mode, with or
-without a data-channel association, at **every phase boundary**, for **every terminating event** that can
-occur there (`close()`, drop, peer close_notify, SCTP ABORT / SHUTDOWN / SHUTDOWN-ACK / heartbeat timeout,
-ICE failure / stop / disconnect, DTLS failure): the certificate holds, i.e. (by `settledOK_sound`) **every
-schedule** of the implementation's own tasks *and* of racing connection progress (ICE connecting, DTLS
-completing, role / descriptions arriving) that ends quiescent ends terminal — peer state in
-{Disconnected, Failed, Closed} with a reason. (False before the round-2 fixes: witnesses below.) -/
+/-- **reaches_terminal_with_reason** — full statement, all schedules: for every kind of connection (WebRTC
+with or without a data-channel association, direct RTP, direct SDES-SRTP), at **every phase boundary**, for
+**every terminating event** that can occur there (`close()`, drop, peer close_notify, SCTP ABORT / SHUTDOWN /
+SHUTDOWN-ACK / heartbeat timeout, ICE failure / stop / disconnect, DTLS failure) the certificate holds, i.e.
+(by `certifiedLive_sound`) along **every schedule** of the implementation's own tasks — the DTLS handshake
+deadline included: no exemption for a handshake in flight — *and* of racing connection progress (ICE
+connecting, DTLS completing, role / descriptions arriving):
+* every quiescent state is terminal — peer state in {Disconnected, Failed, Closed} with a reason — **and the
+  registered data channel has seen exactly one `Close`, its pending `recv()` returns, no `send_data` is left
+  parked** (also when the connection never had an SCTP association);
+* every reachable state **settles**: every run of the implementation's own tasks from it is finite
+  (`Settles`), so a quiescent — hence terminal — state is actually reached (`Settles.reaches_quiescent`).
+(False before the round-2 / round-3 fixes: witnesses below.) -/
 theorem reaches_terminal_with_reason :
-    phaseEventTable.all (fun (m, app, ph, e) =>
-      settledOK (internalActs ++ progressActs) false 40 (step (phaseState m app 1 ph) e)) = true := by
+    phaseEventTable.all (fun (k, app, ph, e) =>
+      settledLive (internalActs ++ progressActs) true 40 (step (startState k app ph) e)) = true := by
   decide +kernel
 
 /-- the statement in the usual form, from the table and the soundness lemma -/
-theorem reaches_terminal_with_reason_all_schedules (m : Mode) (app : Bool) (ph : Phase) (e : Act)
-    (hmem : (m, app, ph, e) ∈ phaseEventTable) (as : List Act)
-    (has : ∀ a ∈ as, a ∈ internalActs ++ progressActs)
-    (hq : quiescent (run (step (phaseState m app 1 ph) e) as) = true)
-    (hd : (run (step (phaseState m app 1 ph) e) as).dtls ≠ .handshaking) :
-    terminal (run (step (phaseState m app 1 ph) e) as) = true := by
+theorem reaches_terminal_with_reason_all_schedules (k : Kind) (app : Bool) (ph : Phase) (e : Act)
+    (hmem : (k, app, ph, e) ∈ phaseEventTable) (as : List Act)
+    (has : ∀ a ∈ as, a ∈ internalActs ++ progressActs) :
+    let t := run (step (startState k app ph) e) as
+    (quiescent t = true → terminal t = true ∧ chansDone t = true) ∧
+    (∃ more : List Act, (∀ a ∈ more, a ∈ internalActs) ∧ quiescent (run t more) = true) := by
   have htab := reaches_terminal_with_reason
   rw [List.all_eq_true] at htab
-  have h1 := htab _ hmem
-  have h2 := settledOK_sound _ false 40 _ h1 as has
-  simp only [okState, hq, Bool.not_true, Bool.false_or, Bool.or_eq_true, Bool.and_eq_true] at h2
-  rcases h2 with h2 | h2
-  · exact absurd (by simpa using h2) hd
-  · exact h2.1
+  have hlive := htab _ hmem
+  have h2 := certifiedLive_sound _ _ 40 _ hlive as has
+  refine ⟨fun hq => ?_, h2.2.reaches_quiescent⟩
+  have h3 := h2.1
+  simp only [okState, hq, Bool.not_true, Bool.false_or, Bool.and_eq_true] at h3
+  exact ⟨h3.1, by simpa using h3.2⟩
 
-example : (Mode.webrtc, true, Phase.dtlsHandshaking, Act.callClose .localClose) ∈ phaseEventTable := by decide
+example : (Kind.webrtc, true, Phase.dtlsHandshaking, Act.callClose .localClose) ∈ phaseEventTable := by decide
 
 set_option maxRecDepth 1000000 in
 /-- **channels_closed_when_connection_ends**: from the settled connected state with an open channel,
@@ -470,7 +608,7 @@ theorem channels_closed_when_connection_ends :
 
 /-- settled states after a drop: `Closed` with a reason -/
 def okDropped (s : St) : Bool :=
-  !quiescent s || s.dtls == .handshaking || (s.peer == .closed && s.reason.isSome)
+  !quiescent s || (s.peer == .closed && s.reason.isSome)
 
 set_option maxRecDepth 1000000 in
 /-- **drop_reaches_closed**: dropping the last handle at any phase boundary — including while the driving
@@ -478,8 +616,8 @@ loop is inside `start_dtls` and holds the only remaining strong handle (audit A5
 not lost) — ends `Closed` with a reason along every schedule of the implementation's tasks and of racing
 connection progress. -/
 theorem drop_reaches_closed :
-    ([Mode.webrtc, Mode.direct].all fun m => [true, false].all fun app => (allPhases.filter (phaseExists m app)).all fun ph =>
-      certified okDropped (internalActs ++ progressActs) 40 (step (phaseState m app 1 ph) .appDrop)) = true := by
+    ([Kind.webrtc, Kind.rtp, Kind.sdes].all fun k => [true, false].all fun app => (allPhases.filter (phaseExists k.mode app)).all fun ph =>
+      certified okDropped (internalActs ++ progressActs) 40 (step (startState k app ph) .appDrop)) = true := by
   decide +kernel
 
 set_option maxRecDepth 1000000 in
